@@ -36,9 +36,16 @@ func VerifH_C03_arp() {
 		verifAssume(!(b[12] == 0x65 && b[13] == 0x58)) // Ethernet-in-Ethernet is not a single well-formed chain
 		verifCover("other-ethertype")
 	}
-	passB := c03RunBPF(prog, b)
-	perr := sm.ProcessPacketData(b, nil)
-	passR := perr == nil && len(res.got) == 1
+	captured, passB := c03Capture(prog, b) // the kernel cuts accepted frames to the filter's snap length
+	passR := false
+	if passB {
+		perr := sm.ProcessPacketData(captured, nil)
+		passR = perr == nil && len(res.got) == 1
+	} else {
+		// what the processor would do is still examined: the filter is an optimisation, not the oracle
+		perr := sm.ProcessPacketData(b, nil)
+		passR = perr == nil && len(res.got) == 1
+	}
 	verifAssert(len(res.got) <= 1, "more than one record for one frame")
 	shape := false
 	if isARP {
